@@ -7,24 +7,29 @@ arbitrary bytes never panics, and every certificate it accepts obeys the structu
 enforces."
 
 What is proved here, for the code after the repairs of finding F06 (validate refuses what the decoders refuse;
-issued validity bounds are whole seconds):
- * the decoders are total functions (`Model/CertV1.lean`, `Model/CertV2.lean` have no panic outcome; all reads
-   are bounds-checked readers of `Base/Der` / `Base/CertPb`), and whatever they accept is a fixed point of /
-   accepted by `validate` — the rules signing enforces (`decoded_obeys_rules_v1/v2`, `rules_v2`);
- * what signing issues has exactly the shape the decoders demand — the statement that was false before the
-   repairs (`issued_is_decodable_shape`): v2 name of 1…253 bytes, no empty group, whole-second bounds;
- * the raw details of a decoded v2 certificate are one self-delimiting element and the handshake form decodes
-   to the same certificate as the standard form (`handshake_form_agrees_v2`);
- * concrete round trips, evaluated in the kernel, of both encodings (`example`s).
-`roundtrip_v2_partial`: the general "decode (encode c) = c" is stated with the details-codec round trip as an
-explicit hypothesis; it is exercised on every issued certificate by the `certcodec` correspondence stream
-(model encoder = real encoder byte for byte, model decoder = real decoder), not proved in general.
+issued validity bounds are whole seconds), for all inputs:
+ * **decode ∘ encode = id for both codecs, no codec hypothesis**: `roundtrip_v2`, `roundtrip_v2_handshake`
+   (DER: all five length forms, minimal two's-complement INTEGERs of 1…8 octets, OCTET STRING / UTF8String lists,
+   optional fields, envelope; `Lemmas/DerRT`, `DerInt`, `CertV2RT`) and `roundtrip_v1`, `roundtrip_v1_handshake`
+   (protobuf: varints via the shared `Lemmas/Wire`, packed repeated uint32, strings, nested messages;
+   `Lemmas/CertPb`, `CertV1Pb`, `CertV1RT`), each returning the certificate itself (all fields) and, for v2, the
+   encoder's raw details, hence the same fingerprint preimage (`roundtrip_v2_fingerprint`);
+ * `decode_total`: every decoder returns a certificate or an error value on every input (no panic outcome);
+ * whatever the decoders accept is accepted by / a fixed point of `validate` (`decoded_obeys_rules_v1/v2`,
+   `rules_v2`, `decoded_v2_fixed_point`, `decoded_v1_ok`), and what `SignWith` issues has the shape the decoders
+   demand and is a fixed point of `validate` (`issued_is_decodable_shape`, `issued_v2_fixed_point`);
+ * the handshake form decodes to the same certificate as the standard form (`handshake_form_agrees_v2`).
+The hypotheses of the round-trip theorems are the shape predicates `V2OK` / `V1OK` (fixed point of `validate`,
+prefix values inside their address family, whole-second bounds within int64 seconds, hex issuer, curve value in
+its Go type, non-empty signature) and a size bound (`MaxCertificateSize` for v2, 2^64 for v1 length prefixes);
+both predicates are inhabited (`example`s) and hold for what the decoders return.
 -/
 import Nebula.Lemmas.CertV2
 import Nebula.Lemmas.CertSign
 import Nebula.Model.CertV1
 import Nebula.Lemmas.CertV1RT
 import Nebula.Lemmas.CertV2RT
+import Nebula.Lemmas.CertV2Idem
 
 namespace Nebula.Props.C03
 open Nebula.Net Nebula.Cert Nebula.Lemmas.CertV2 Nebula.Lemmas.CertSign
@@ -149,6 +154,25 @@ theorem roundtrip_v2_fingerprint (c : Cert) (h : V2OK c) (rd : List UInt8) (he :
     ∃ c' rd', V2.unmarshal (V2.marshal rd c.curve (some c.publicKey) c.signature) [] 0 = .ok (c', rd') ∧
       V2.fingerprintBytes rd' c'.curve c'.publicKey c'.signature = V2.fingerprintBytes rd c.curve c.publicKey c.signature :=
   ⟨c, rd, unmarshal_marshal c h rd he hsz, rfl⟩
+
+/-- `validate` is idempotent, so every v2 certificate the decoder returns and every v2 certificate `SignWith`
+issues is a fixed point of `validate` — the first hypothesis of `roundtrip_v2` ("every certificate satisfying
+`validate`"). -/
+theorem decoded_v2_fixed_point (b pk : List UInt8) (cv : Nat) (c : Cert) (rd : List UInt8)
+    (h : V2.unmarshal b pk cv = .ok (c, rd)) : validateV2 c = .ok c := by
+  obtain ⟨x, hx, -⟩ := decoded_obeys_rules_v2 b pk cv c rd h
+  exact Nebula.Lemmas.CertV2Idem.validateV2_idem x c hx
+
+theorem issued_v2_fixed_point (E : SignEnv) (signer : Option Cert) (kc : Nat) (t c : Cert)
+    (h : signWith E signer kc t = .ok c) (hv : t.version = 2) : validateV2 c = .ok c := by
+  obtain ⟨-, iss, -, v, hval, -, -, sig, -, -, -, -, rfl⟩ := (signWith_ok_iff E signer kc t c).mp h
+  unfold validateVersion at hval
+  have h1 : ¬ (fromTBS t iss).version = 1 := by simp only [fromTBS]; omega
+  have h2 : (fromTBS t iss).version = 2 := by simp only [fromTBS]; omega
+  simp only [h2, if_true, Option.some.injEq] at hval
+  have hv2 : validateV2 (fromTBS t iss) = .ok v := by simpa using hval
+  have := Nebula.Lemmas.CertV2Idem.validateV2_idem _ _ hv2
+  exact validateV2_signature v v sig this
 
 /-- **decode_total**: the decoders are total functions of their input — for every byte string, key and curve
 each of them returns a certificate or one of finitely many error values; there is no panic outcome in the
